@@ -116,6 +116,12 @@ def evaluate(expr, env, lang, ci=False):
     env: name -> (value, kind); ci: case-insensitive names (env keys must then be upper case)."""
     e = _norm_literal_syntax(expr, lang)
     if _INT.match(e):
+        # the literal is evaluated by the rules of ITS language: in Java (as in C) an integer literal with a leading zero is octal - '064' reads like 64 and is 52
+        body = e.lstrip("+-")
+        if lang == "java" and len(body) > 1 and body[0] == "0":
+            if not re.match(r"^[0-7]+$", body):
+                raise LexError("invalid octal integer literal %r (%s)" % (expr, lang))
+            return (-1 if e.startswith("-") else 1) * int(body, 8), "int", None
         return int(e), "int", None
     if _REAL.match(e):
         return float(e), "real", sig_digits(e)
